@@ -11,6 +11,15 @@
   recycle <ts>                           Latches.recycle                           -> ok ; <dump>
   recycleslot <slot> <ts>                one iteration of it                       -> ok ; <dump>
   chk                                    property op: this side's oracle           -> ok | FAIL ...
+  client level (the latch scheduler driven through KVTxn.Commit; timestamps in the op lines are the observed ones):
+  creset ...                             like reset
+  tbegin <id> <startTS> <keyhex>...      a transaction with this write set                          -> ok
+  tcommit <id> <commitTS>                Commit, waited for (the model: commitTxn)                  -> ok|failed|conflict|queued|stuck
+  hlock <id> <startTS> <keyhex>...       the harness itself takes latches (LatchesScheduler.Lock)   -> success|locked|stale
+  tasync <id>                            Commit in the background, observed until it is queued      -> queued|notqueued
+  hunlock <id> <commitTS>                SetCommitTS + UnLock of an hlock                           -> ok
+  twait <id> <commitTS>                  wait for a background Commit                               -> ok|failed|conflict|queued|stuck
+  chk-progress / chk-free                property ops                                               -> ok | FAIL ...
   stress ...                             (implementation only; the model has nothing to run) -> ok
 -/
 import ClientGoVerif.Model.Latch
@@ -22,6 +31,10 @@ structure DState where
   nslots : Nat
   cfg : Cfg
   st : State
+  started : List LockId := []
+  txs : List LockId := []      -- transactions begun, Commit not yet called
+  hls : List LockId := []      -- harness locks not yet unlocked
+  asyncs : List LockId := []   -- background Commits not yet waited for to the end
 
 def mkCfg (table : List (Key × Nat)) (listCount : Int) (expireMs shift : Nat) : Cfg :=
   { slotOf := fun k => match table.find? (fun e => e.1 == k) with | some e => e.2 | none => 0,
@@ -81,6 +94,34 @@ def chk (d : DState) : String :=
   | [] => "ok"
   | b :: _ => "FAIL " ++ b
 
+/-- result of a Commit as seen by the caller -/
+def commitResult (s : State) (l : LockId) (commitTS : Nat) : String :=
+  match s.locks l with
+  | none => "illegal"
+  | some lk =>
+    match lk.phase with
+    | .done => if lk.isStale then "conflict" else if commitTS = 0 then "failed" else "ok"
+    | .waiting => "queued"
+    | _ => "stuck"
+
+/-- the scheduler goroutine's `wakeup`: `acquire` on every woken lock of a started Commit -/
+def settle (d : DState) (s : State) : State :=
+  d.started.foldl (fun s l =>
+    match s.locks l with
+    | some lk => if lk.phase = .woken then (match acquire d.cfg s l with | some (s', _) => s' | none => s) else s
+    | none => s) s
+
+def freeChk (d : DState) : String :=
+  let s := d.st
+  let bad := (List.range d.nslots).filterMap fun i =>
+    let sl := s.slots i
+    match sl.queue.find? (fun n => n.holder.isSome) with
+    | some n => some s!"latch-held key={Bytes.toHex n.key}"
+    | none => if sl.waiting.isEmpty then none else some s!"waiting slot={i}"
+  match bad with
+  | [] => "ok"
+  | b :: _ => "FAIL " ++ b
+
 def parseKeys (ws : List String) : Option (List Key) := ws.mapM parseHex
 
 def parseTable (ws : List String) : Option (List (Key × Nat)) :=
@@ -94,7 +135,7 @@ def parseTable (ws : List String) : Option (List (Key × Nat)) :=
 
 def step (d : DState) (line : String) : DState × String :=
   let ws := words line
-  if !d.ready && ws.head? != some "reset" && ws.head? != some "stress" then (d, "no-reset") else
+  if !d.ready && ws.head? != some "reset" && ws.head? != some "creset" && ws.head? != some "stress" then (d, "no-reset") else
   match ws with
   | "reset" :: ns :: lc :: ex :: sh :: tbl =>
     match ns.toNat?, lc.toInt?, ex.toNat?, sh.toNat?, parseTable tbl with
@@ -151,6 +192,61 @@ def step (d : DState) (line : String) : DState × String :=
     | some i, some ts => let s' := recycleSlot d.cfg d.st i ts
                          ({ d with st := s' }, s!"ok ; {dump d s'}")
     | _, _ => (d, "bad-op")
+  | "creset" :: ns :: lc :: ex :: sh :: tbl =>
+    match ns.toNat?, lc.toInt?, ex.toNat?, sh.toNat?, parseTable tbl with
+    | some n, some lc, some ex, some sh, some t =>
+      ({ ready := true, table := t, nslots := n, cfg := mkCfg t lc ex sh, st := Latch.init }, "ok")
+    | _, _, _, _, _ => (d, "bad-op")
+  | "tbegin" :: id :: ts :: ks =>
+    match id.toNat?, ts.toNat?, parseKeys ks with
+    | some id, some ts, some keys =>
+      if id ≠ d.st.nlocks then (d, "illegal") else
+      ({ d with st := genLock d.cfg d.st ts keys, txs := id :: d.txs }, "ok")
+    | _, _, _ => (d, "bad-op")
+  | "hlock" :: id :: ts :: ks =>
+    match id.toNat?, ts.toNat?, parseKeys ks with
+    | some id, some ts, some keys =>
+      if id ≠ d.st.nlocks then (d, "illegal") else
+      let s1 := genLock d.cfg d.st ts keys
+      match acquire d.cfg s1 id with
+      | some (s2, r) => ({ d with st := s2, hls := id :: d.hls }, r.str)
+      | none => (d, "illegal")
+    | _, _, _ => (d, "bad-op")
+  | ["tcommit", id, c] =>
+    match id.toNat?, c.toNat? with
+    | some l, some c =>
+      if !d.txs.contains l then (d, "illegal") else
+      let d1 := { d with started := d.started ++ [l], txs := d.txs.erase l }
+      let s1 := settle d1 (commitTxn d.cfg d.st l c)
+      ({ d1 with st := s1 }, commitResult s1 l c)
+    | _, _ => (d, "bad-op")
+  | ["tasync", id] =>
+    match id.toNat? with
+    | some l =>
+      if !d.txs.contains l then (d, "illegal") else
+      let d := { d with txs := d.txs.erase l, asyncs := l :: d.asyncs }
+      match acquire d.cfg d.st l with
+      | some (s1, .locked) => ({ d with st := s1, started := d.started ++ [l] }, "queued")
+      | some (s1, _) => ({ d with st := s1, started := d.started ++ [l] }, "notqueued")
+      | none => (d, "illegal")
+    | none => (d, "bad-op")
+  | ["hunlock", id, c] =>
+    match id.toNat?, c.toNat? with
+    | some l, some c =>
+      if !d.hls.contains l then (d, "illegal") else
+      let s1 := settle d (commitTxn d.cfg d.st l c)
+      ({ d with st := s1, hls := d.hls.erase l }, "ok")
+    | _, _ => (d, "bad-op")
+  | ["twait", id, c] =>
+    match id.toNat?, c.toNat? with
+    | some l, some c =>
+      if !d.asyncs.contains l then (d, "illegal") else
+      let s1 := settle d (commitTxn d.cfg d.st l c)
+      let r := commitResult s1 l c
+      ({ d with st := s1, asyncs := if r == "queued" then d.asyncs else d.asyncs.erase l }, r)
+    | _, _ => (d, "bad-op")
+  | ["chk-progress"] => (d, "ok")
+  | ["chk-free"] => if d.hls.isEmpty && d.asyncs.isEmpty then (d, freeChk d) else (d, "illegal")
   | ["chk"] => (d, chk d)
   | "stress" :: _ => (d, "ok")
   | _ => (d, "bad-op")
